@@ -8,7 +8,9 @@ OUT = os.environ.get('VERIF_OUT', ROOT)   # evidence/ and replays/ live here (ov
 NPROC = int(os.environ.get('VERIF_JOBS', '16'))
 SEED = int(os.environ.get('VERIF_SEED', '0') or 0)
 LIBOGG = '/usr/lib/x86_64-linux-gnu/libogg.a'
-WRAP = '-Wl,--wrap=malloc,--wrap=calloc,--wrap=realloc,--wrap=free'
+WRAP = ('-Wl,--wrap=malloc,--wrap=calloc,--wrap=realloc,--wrap=free'
+        ',--wrap=ogg_page_version,--wrap=ogg_page_continued,--wrap=ogg_page_bos,--wrap=ogg_page_eos,--wrap=ogg_page_granulepos'
+        ',--wrap=ogg_page_serialno,--wrap=ogg_page_pageno,--wrap=ogg_page_packets')   # allocator + instrumented Ogg page accessors (harness/common.h)
 
 FLAV = {
     'asan': ('clang', '-O1 -g -fno-omit-frame-pointer -fsanitize=address,integer-divide-by-zero,bounds,null -fno-sanitize-recover=integer-divide-by-zero,bounds,null'),
